@@ -60,8 +60,13 @@ class ListBuilder(Periodic):
                                 local_set.add(bytes.fromhex(pubkey))
                                 pubkey_count += 1
                     event_count += 1
-                global_set.clear()
+                if list_kind == "allow" and local_set and self.initial:
+                    # the preconfigured keys belong to an enforced allow list
+                    local_set.update(bytes.fromhex(p) for p in self.initial)
+                # validators read the set from other threads while it is refreshed:
+                # it must never look empty (= not enforced) in between
                 global_set.update(local_set)
+                global_set.intersection_update(local_set)
                 self.log.info(
                     "Loaded %s list with %d pubkeys from %d events",
                     list_kind,
